@@ -203,6 +203,18 @@ def hand_cases():
         inc_files["%s/defs.mro" % dname] = "# types of %s\nfiletype t%s;\n\n# trailing remark of %s/defs.mro\n" % (dname, dname, dname)
     inc_files["top.mro"] = inc_files["top.mro"].replace("call SA(\n    x = 1,\n)", "call SA(\n    x = 1,\n    f = null,\n)")
     out.append({"id": "same_named_includes", "top": "top.mro", "files": inc_files})
+    # a mapped pipeline and a mapped call inside it that go by the same call name (fork dimensions
+    # are listed by call name), over run-time collections
+    out.append(prog("same_call_name_two_levels",
+                    "stage G(\n    out map<int>[] ms,\n    src py \"g\",\n)\n\nstage S(\n    in  int v,\n    out int y,\n    src py \"s\",\n)\n\nstage U(\n    in  map<int>[] ys,\n    out int n,\n    src py \"u\",\n)\n\n"
+                    "pipeline MID(\n    in  map<int> m,\n    out map<int> ys,\n)\n{\n    map call S as X(\n        v = split self.m,\n    )\n\n    return (\n        ys = X.y,\n    )\n}\n\n"
+                    "pipeline TOP(\n    out map<int>[] all,\n    out int n,\n)\n{\n    call G(\n    )\n\n    map call MID as X(\n        m = split G.ms,\n    )\n\n    call U(\n        ys = X.ys,\n    )\n\n"
+                    "    return (\n        all = X.ys,\n        n   = U.n,\n    )\n}\n\ncall TOP(\n)\n"))
+    out.append(prog("same_call_name_two_levels_static",
+                    "stage S(\n    in  int v,\n    out int y,\n    src py \"s\",\n)\n\nstage U(\n    in  map<int>[] ys,\n    out int n,\n    src py \"u\",\n)\n\n"
+                    "pipeline MID(\n    in  map<int> m,\n    out map<int> ys,\n)\n{\n    map call S as X(\n        v = split self.m,\n    )\n\n    return (\n        ys = X.y,\n    )\n}\n\n"
+                    "pipeline TOP(\n    out map<int>[] all,\n    out int n,\n)\n{\n    map call MID as X(\n        m = split [{\"a\": 1, \"b\": 2}, {\"a\": 3, \"b\": 4}],\n    )\n\n    call U(\n        ys = X.ys,\n    )\n\n"
+                    "    return (\n        all = X.ys,\n        n   = U.n,\n    )\n}\n\ncall TOP(\n)\n"))
     # strings the parser interns (stage code, output file names, resource `special`), first with a
     # literal backslash spelled \\\\ then - in the next source, for a parser that has kept the first -
     # with the escape that the first one's text spells
